@@ -116,7 +116,7 @@ func ruleURLSinks(w *World, r *Report) {
 		}
 	}
 	r.curRule = "C04-G"
-	r.Expect("non-constant href/src writes", n, 3)
+	r.Expect("non-constant href/src writes", n, 1)
 }
 
 // derivedWithoutDecoding: v is one of the tested values, or reaches one through non-decoding functions only.
